@@ -18,6 +18,11 @@ func VerifC04(args []string) {
 	vfAssert(ok, "harness: skeleton readable by the reference reader")
 	w := newWorld(tree, "")
 	w.opsFail = true
+	if variant == "splitn" {
+		// available variables may also hold nil (operators that accept it, eq / ne, then have a value)
+		w.mayWrong, w.wrongNil = true, true
+		variant = "split"
+	}
 	cfgs := vfConfigs(args, 2)
 	for _, opts := range cfgs {
 		conf := w.config(vfRegOf(args), opts)
@@ -168,6 +173,25 @@ func VerifC05Fetchers(args []string) {
 		vals[name] = vfBool("val." + name)
 		locals = append(locals, name)
 	}
+	// does NewCtxFromVars pick the name-keyed fetcher for this layout? (a key outside 0..255)
+	minKey, maxKey := VariableKey(32767), VariableKey(-32768)
+	for _, k := range base.VariableKeyMap {
+		if k < minKey {
+			minKey = k
+		}
+		if k > maxKey {
+			maxKey = k
+		}
+	}
+	byName := args[1] == "map" || minKey < 0 || maxKey > 255
+	remotes := []string{"r0", "r1", "r2"}
+	if byName && args[1] != "map" {
+		// a variable the base config registers but the caller supplies no value for: with the name-keyed
+		// fetcher it is simply not available (the key-indexed fetcher reports every slot of its slice as
+		// cached, which is outside what is asserted here)
+		base.VariableKeyMap["m0"] = maxKey + 1
+		remotes = append(remotes, "m0")
+	}
 	var ctx *Ctx
 	if args[1] == "map" {
 		ctx = &Ctx{VariableFetcher: NewMapVarFetcher(vals)}
@@ -175,10 +199,22 @@ func VerifC05Fetchers(args []string) {
 		ctx = NewCtxFromVars(base, vals)
 	}
 	ext := NewConfig(ExtendConf(base))
-	remotes := []string{"r0", "r1", "r2"}
 	for _, r := range remotes {
 		GetOrRegisterKey(ext, r)
 	}
+	defer func() {
+		if !byName {
+			return
+		}
+		// the same context later learns a value (Set): what was undecided becomes definite
+		r := remotes[len(remotes)-1]
+		vfAssert(ctx.Set(ext.VariableKeyMap[r], r, true) == nil, "Set on the name-keyed fetcher succeeds")
+		e, err := Compile(ext, "(not "+r+")")
+		vfAssert(err == nil && e != nil, "expression compiles")
+		v, terr := e.TryEval(ctx)
+		vfReach("learned")
+		vfAssert(terr == nil && v == false, "a variable made available on the same context afterwards is still not read by TryEval")
+	}()
 	try := func(src string) (Value, error) {
 		e, err := Compile(ext, src)
 		vfAssert(err == nil && e != nil, "expression over local and remote variables compiles: "+src)
